@@ -36,6 +36,15 @@ Line-protocol front end of the C07 model (requests after the leading `C07` field
   reply: ok <res> …       res = impl:spec:hostInput:dirtyVariant (values; what data/cfg hold when the
                           invocation has ended on the reused VM / on a fresh VM constructed with
                           the host's current data / vm.inputGlobals afterwards / with the dirty flag)
+
+  kept <kinv> <kinv> …    objects the HOST keeps across invocations (round 7)
+                          kinv = r:<code>:<p>:<snips>:<fire>:<fails> (RunCode; fire = `_` or i.n: the
+                          host builtin calls kept object i with n; fails ∈ 0|1) | k:<w> (vm.Get and
+                          keep; w ∈ b|p|c|l = bump, peek, cl, items) | c:<i>:<n> (vm.Call of kept
+                          object i) | f:<w>:<n> (vm.Get then vm.Call) | l:<i> (read kept list i)
+  reply: ok <res> …       res = impl;spec;cachedVariant;x;items  (result of the invocation on the
+                          reused VM / Spec `kSpecRes` / with the remembered-code variant; what
+                          vm.Get finds in `x` and `items` afterwards, `~` without active code)
 -/
 namespace Risor.C07
 
@@ -209,7 +218,49 @@ def dataRes (s sd : DSt) : List DInv → List String
     String.intercalate ":" [showDVal r.2, showDVal (dSpecAt s.input v), showDVal r.1.input, showDVal rd.2]
       :: dataRes r.1 rd.1 rest
 
+def parseKWhat : String → Option KWhat
+  | "b" => some .bump | "p" => some .peek | "c" => some .cl | "l" => some .items | _ => none
+
+def parseKInv (s : String) : Option KInv :=
+  match s.splitOn ":" with
+  | ["r", c, p, sn, fr, fl] => do
+    let c ← c.toNat?
+    let p ← p.toInt?
+    let sn ← sn.toNat?
+    let fr ← (if fr = "_" then some none else
+      match fr.splitOn "." with
+      | [i, n] => do let i ← i.toNat?; let n ← n.toInt?; pure (some (i, n))
+      | _ => none)
+    pure (.runCode c p sn fr (fl == "1"))
+  | ["k", w] => (parseKWhat w).map .keep
+  | ["c", i, n] => do let i ← i.toNat?; let n ← n.toInt?; pure (.call i n)
+  | ["f", w, n] => do let w ← parseKWhat w; let n ← n.toInt?; pure (.callFresh w n)
+  | ["l", i] => i.toNat?.map .read
+  | _ => none
+
+def showInts (xs : List Int) : String := if xs.isEmpty then "_" else String.intercalate "." (xs.map toString)
+
+def showKRes : KRes → String
+  | .ok k x => "ok=" ++ toString k ++ "/" ++ toString x
+  | .ranOk => "ran=ok" | .ranErr => "ran=err" | .ranPanic => "ran=panic"
+  | .notLoaded => "notloaded" | .noCode => "nocode" | .kept => "kept" | .badTarget => "badtarget"
+  | .listIs xs => "list=" ++ showInts xs
+
+def keptRes (s : KSt) (sc : KCSt) : List KInv → List String
+  | [] => []
+  | v :: rest =>
+    let r := kStep s v
+    let rc := kcStep sc v
+    String.intercalate ";" [showKRes r.2, showKRes (kSpecRes s v), showKRes rc.2,
+      (match r.1.cur with | some g => toString g.x | none => "~"),
+      (match r.1.cur with | some g => showInts g.items | none => "~")]
+      :: keptRes r.1 rc.1 rest
+
 def handle : List String → String
+  | "kept" :: invs =>
+    match invs.mapM parseKInv with
+    | some h => String.intercalate "\t" ("ok" :: keptRes {} {} h)
+    | none => "error\tbad-kept-history"
   | "data" :: d0 :: invs =>
     match parseDVal d0, invs.mapM parseDInv with
     | some d, some h => String.intercalate "\t" ("ok" :: dataRes (dNew d) (dNew d) h)
